@@ -233,11 +233,12 @@ package forkexec
 // id maps of a new user namespace (model U in /verif/spec/userns_U.contracts): uid_map first, then
 // setgroups ("deny" unless gid mappings are given with setgroups enabled), then gid_map - for the child's
 // pid; every error is an errno value (syncWithChild type-asserts it).
-//@ func pkg/forkexec.writeFile props C04
+//@ func pkg/forkexec.writeFile props C04 C12
 //@   arith int
 //@   assigns FD.closed, U.n, U.path, U.data
 //@   ensures result != nil ==> hastype(result, syscall.Errno)
 //@   ensures forall d int :: old(FD.closed[d]) ==> FD.closed[d]
+//@   callsite return: assert @C12 fd >= 0 ==> FD.closed[fd]
 //@   abstracts result == nil ==> U.n == old(U.n) + 1 && U.path == old(U.path)[old(U.n) := path] && U.data == old(U.data)[old(U.n) := content]
 //@   abstracts result != nil ==> U.n == old(U.n) && U.path == old(U.path) && U.data == old(U.data)
 
